@@ -56,7 +56,7 @@ def main():
             open(os.path.join(wt, "out", name, "demo.py"), "w").write(src)
         demo = os.path.join(wt, "out", name, "demo.py")
         if os.path.exists(demo) and not a.skip_tests:
-            rc0, o0 = sh([PY, demo], cwd=wt, timeout=900)
+            rc0, o0 = sh([PY, demo], cwd=wt, timeout=900, env=dict(os.environ, PYTHONPATH=wt))
             res["demo_without_patch_rc"] = rc0
         rc, out = sh(["git", "-C", wt, "apply", os.path.join(d, "patch.diff")])
         if rc != 0:
@@ -68,7 +68,7 @@ def main():
             rc, out = sh(f"cd {wt} && timeout 1500 {PY} -m pytest -q -p no:cacheprovider -n 8 test/ 2>&1 | tail -2")
             res["tests_with_patch"] = out.strip().splitlines()[-1] if out.strip() else ""
             if os.path.exists(demo):
-                rc1, o1 = sh([PY, demo], cwd=wt, timeout=900)
+                rc1, o1 = sh([PY, demo], cwd=wt, timeout=900, env=dict(os.environ, PYTHONPATH=wt))
                 res["demo_with_patch_rc"] = rc1
         for pid in pids:
             env = dict(os.environ, VERIF_REPO=wt, VERIF_SEED=a.seed, VERIF_EVIDENCE_DIR=os.path.join(tmp, "ev"), VERIF_OUT=os.path.join(tmp, "out"))
